@@ -248,7 +248,7 @@ bool CanettiGennaroJareckiKrawczykRabinRVSS::CheckGroup
 		// Compute $k := (p - 1) / q$
 		mpz_set(k, p);
 		mpz_sub_ui(k, k, 1L);
-		if (!mpz_cmp_ui(q, 0L))
+		if (mpz_cmp_ui(q, 0L) <= 0)
 			throw false;
 		mpz_div(k, k, q);
 
@@ -1167,7 +1167,7 @@ bool CanettiGennaroJareckiKrawczykRabinZVSS::CheckGroup
 		// Compute $k := (p - 1) / q$
 		mpz_set(k, p);
 		mpz_sub_ui(k, k, 1L);
-		if (!mpz_cmp_ui(q, 0L))
+		if (mpz_cmp_ui(q, 0L) <= 0)
 			throw false;
 		mpz_div(k, k, q);
 
@@ -1855,7 +1855,7 @@ bool CanettiGennaroJareckiKrawczykRabinDKG::CheckGroup
 		// Compute $k := (p - 1) / q$
 		mpz_set(k, p);
 		mpz_sub_ui(k, k, 1L);
-		if (!mpz_cmp_ui(q, 0L))
+		if (mpz_cmp_ui(q, 0L) <= 0)
 			throw false;
 		mpz_div(k, k, q);
 
@@ -2694,7 +2694,7 @@ bool CanettiGennaroJareckiKrawczykRabinDSS::CheckGroup
 		// Compute $k := (p - 1) / q$
 		mpz_set(k, p);
 		mpz_sub_ui(k, k, 1L);
-		if (!mpz_cmp_ui(q, 0L))
+		if (mpz_cmp_ui(q, 0L) <= 0)
 			throw false;
 		mpz_div(k, k, q);
 
